@@ -595,6 +595,19 @@ Proof.
   - intros j E. inversion E; subst. simpl. discriminate.
 Qed.
 
+Lemma step_mergefail_ok : forall st, inv13 st -> inv13 (step capdb bad rf merge st AMergeFail).
+Proof.
+  intros st I. simpl.
+  destruct (mjob st) as [[off snap [|] mg]|] eqn:Hj; try exact I.
+  pose proof (i_mjstart _ _ I _ Hj eq_refl) as Hcr. simpl in Hcr. subst mg.
+  destruct I as [C F P1 Q IS MS].
+  constructor; simpl; auto.
+  - refine (consistent_ext _ _ _ _ _ _ _ _ C); intros u; hsimpl; rewrite ?Hj; reflexivity.
+  - intros u H. apply F. hsimpl. rewrite Hj in *. exact H.
+  - intros u. specialize (P1 u). hsimpl. rewrite Hj in *. exact P1.
+  - intros j E. inversion E; subst. simpl. discriminate.
+Qed.
+
 Lemma step_start_tag_ok : forall st, inv13 st -> inv13 (step capdb bad rf merge st (AStart KTag)).
 Proof.
   intros st I. simpl.
@@ -714,7 +727,7 @@ Qed.
 
 Theorem step_inv13 : forall st a, inv13 st -> inv13 (step capdb bad rf merge st a).
 Proof.
-  intros st a I. destruct a as [ks|v|v|v| |h|h| | | |n|b| |k|k].
+  intros st a I. destruct a as [ks|v|v|v| |h|h| | | |n|b| | |k|k].
   - apply step_import_ok; auto.
   - apply step_view_ok; auto.
   - apply step_read_ok; auto.
@@ -728,6 +741,7 @@ Proof.
   - apply step_env_ok; simpl; auto.
   - apply step_env_ok; simpl; auto.
   - apply step_env_ok; simpl; auto.
+  - apply step_mergefail_ok; auto.
   - destruct k; [apply step_start_import_ok|apply step_start_merge_ok|apply step_start_tag_ok|apply step_start_conv_ok]; auto.
   - destruct k; [apply step_complete_import_ok|apply step_complete_merge_ok|apply step_complete_tag_ok|apply step_complete_conv_ok]; auto.
 Qed.
@@ -796,7 +810,7 @@ Qed.
 
 Lemma step_uniq : forall st a, inv13 st -> uniq st -> uniq (step capdb bad rf merge st a).
 Proof.
-  intros st a I U. destruct a as [ks|v|v|v| |h|h| | | |n|b| |k|k]; simpl; auto.
+  intros st a I U. destruct a as [ks|v|v|v| |h|h| | | |n|b| | |k|k]; simpl; auto.
   - destruct ks; auto. destruct (ascending _ _); auto.
     destruct (_ =? _)%nat; auto.
   - destruct (view_of v (views st)); auto.
@@ -806,6 +820,7 @@ Proof.
   - intros u. rewrite indexes_start_converter, indexes_start_tagging. apply U.
   - intros u. rewrite indexes_start_converter. apply U.
   - intros u. rewrite indexes_start_merge, indexes_start_converter, indexes_start_tagging. apply U.
+  - destruct (mjob st) as [[off snap [|] mg]|]; auto.
   - destruct k.
     + destruct (ijob st) as [[caps nx snap [|] cr un np]|]; auto.
       destruct (from_pcap capdb bad (known st) caps snap) as [[es usednew] allk]. auto.
